@@ -30,7 +30,8 @@ A_MENU = {
         (-3.0, 0.5, 2.0)],
     4: [(0.0, -1.0, math.log(2), -3.0), (0.0, 0.0, -1.0, -1.0), (5.0, -math.inf, 4.0, 4.5), (-30.0, 0.0, -0.5, -1e3)],
 }
-BETAS = [(0.0, 0.3), (0.3, 1.0), (0.0, 1.0), (0.5, 0.5), (0.25, 0.75), (0.75, 0.25), (1.0, 0.0)]  # the last two are cooling moves
+BETAS = [(0.0, 0.3), (0.3, 1.0), (0.0, 1.0), (0.5, 0.5), (0.25, 0.75), (0.75, 0.25), (1.0, 0.0),  # cooling moves
+         (0.4, 0.400003), (0.999991, 1.0)]  # tiny but non-zero moves: still a move, the generator is still asked
 
 
 def build(a, ns, dt, beta):
@@ -98,6 +99,9 @@ def run_config(cfg):
         if len(rng.p_records) != 1:
             r.violation("C09/generator-calls", f"{len(rng.p_records)} choice() calls", c)
             continue
+        if not all(rng.replace_flags):
+            # independent draws proportional to the weights are draws with replacement, whatever the requested size
+            r.violation("C09/drawn-without-replacement", {"replace": rng.replace_flags, "size": size, "n": len(a)}, c)
         nn, sz, p = rng.p_records[0]
         want_size = n if size is None else size
         if nn != n or sz != want_size or len(p) != n:
